@@ -2,6 +2,8 @@ mod c13;
 mod coqfmt;
 mod reflect;
 mod rng;
+mod sim;
+mod simcheck;
 
 use std::path::PathBuf;
 
@@ -19,7 +21,8 @@ fn main() {
     let r = match cmd.as_str() {
         "reflect" => reflect::run(&out),
         "c13" => c13::run(&out, seed, thorough),
-        _ => { eprintln!("usage: hx <reflect|c13|...> --out DIR [--seed N] [--tier quick|thorough]"); std::process::exit(2); }
+        "simcheck" | "simcheck-worker" | "simprobe" | "simreplay" => simcheck::main(&cmd, &args, &out, seed, thorough),
+        _ => { eprintln!("usage: hx <reflect|c13|simcheck|simprobe|simreplay|...> --out DIR [--seed N] [--tier quick|thorough]"); std::process::exit(2); }
     };
     if let Err(e) = r { eprintln!("hx {}: error: {}", cmd, e); std::process::exit(3); }
 }
